@@ -4,20 +4,29 @@ package mqttproxy
 
 import (
 	"fmt"
+	"net"
+	"net/http"
+	"net/http/httptest"
 	"os"
 	"path/filepath"
 	"reflect"
+	"strings"
 	"testing"
+	"time"
 
+	"github.com/eclipse/paho.mqtt.golang/packets"
+
+	"github.com/megaease/easegress/pkg/context"
 	"github.com/megaease/easegress/pkg/supervisor"
 	zz "github.com/megaease/easegress/pkg/zzverifc13"
 )
 
-// C13 harness (package mqttproxy): MQTTProxy specs through supervisor.NewSpec
-// (decode, schema, formats, accept/reject vs the model). The broker itself is
-// NOT started here: it binds a TCP port and needs the cluster of a running
-// supervisor (listed in the evidence as not instantiated); its run-time limits
-// are exercised by the C09/C14-C17 harnesses of this package.
+// C13 harness (package mqttproxy): MQTTProxy specs through supervisor.NewSpec;
+// for every accepted spec the broker is started in-process (newBroker on a free
+// loopback port, in-memory session store, stub pipelines) and a raw TCP client
+// runs CONNECT / SUBSCRIBE / PUBLISH / UNSUBSCRIBE / DISCONNECT plus one HTTP
+// publish. The broker's goroutines cannot be guarded by recover(): a panic
+// kills the child process and is recorded as "crash" for the case.
 
 var c13Template = `
 name: mq1
@@ -41,21 +50,126 @@ rules:
   pipeline: p2
 `
 
+var c13IntVals = []int64{-1, 0, 1, 1 << 31, -100, 2}
+
 func c13Gen(r *vfRand, i int, adv bool) *zz.In {
 	g := &zz.Gen{R: r, Adv: adv}
 	zz.Templates["MQTTProxy"] = []string{c13Template}
-	doc := g.GenDocT("MQTTProxy", reflect.TypeOf(&Spec{}))
+	t := reflect.TypeOf(&Spec{})
+	var doc map[string]interface{}
+	if !adv && i%2 == 0 {
+		// boundary numbers on every integer leaf, in rotation: (leaf, value) pair number i/2
+		leaves := zz.IntLeaves(t)
+		k := i/2 + int(vfSeed()%1000)*17
+		g.Force = c13IntVals[(k/len(leaves))%len(c13IntVals)]
+		doc = g.GenAdvDocT(zz.AdvItem{Cat: "object", Kind: "MQTTProxy", Path: leaves[k%len(leaves)]}, t)
+		g.Force = nil
+		if doc == nil {
+			doc = g.GenDocT("MQTTProxy", t)
+		}
+		doc["kind"], doc["name"] = "MQTTProxy", "mq1"
+	} else {
+		doc = g.GenDocT("MQTTProxy", t)
+	}
 	return &zz.In{Cat: "object", Kind: "MQTTProxy", Doc: doc}
+}
+
+type c13Handler struct{}
+
+func (c13Handler) Handle(ctx *context.Context) string { return "" }
+
+type c13Mapper struct{}
+
+func (c13Mapper) GetHandler(name string) (context.Handler, bool) {
+	if name == "" || name == "nosuch" {
+		return nil, false
+	}
+	return c13Handler{}, true
+}
+
+func c13Write(conn net.Conn, p packets.ControlPacket) bool {
+	conn.SetWriteDeadline(time.Now().Add(150 * time.Millisecond))
+	return p.Write(conn) == nil
+}
+
+func c13Read(conn net.Conn) packets.ControlPacket {
+	conn.SetReadDeadline(time.Now().Add(150 * time.Millisecond))
+	p, err := packets.ReadPacket(conn)
+	if err != nil {
+		return nil
+	}
+	return p
+}
+
+// c13Exchange: one client session; every step tolerates a broker that refuses or drops the connection.
+func c13Exchange(addr, clientID string, b *Broker) {
+	conn, err := net.DialTimeout("tcp", addr, 500*time.Millisecond)
+	if err != nil {
+		return
+	}
+	defer conn.Close()
+	cp := packets.NewControlPacket(packets.Connect).(*packets.ConnectPacket)
+	cp.ClientIdentifier, cp.CleanSession, cp.ProtocolName, cp.ProtocolVersion, cp.Keepalive = clientID, true, "MQTT", 4, 30
+	cp.Username, cp.UsernameFlag, cp.Password, cp.PasswordFlag = "u", true, []byte("p"), true
+	if !c13Write(conn, cp) {
+		return
+	}
+	c13Read(conn)
+	sp := packets.NewControlPacket(packets.Subscribe).(*packets.SubscribePacket)
+	sp.MessageID, sp.Topics, sp.Qoss = 1, []string{"a/b", "x/+"}, []byte{1, 0}
+	if c13Write(conn, sp) {
+		c13Read(conn)
+	}
+	pp := packets.NewControlPacket(packets.Publish).(*packets.PublishPacket)
+	pp.TopicName, pp.Payload, pp.Qos, pp.MessageID = "a/b", []byte("hello"), 1, 2
+	if c13Write(conn, pp) {
+		c13Read(conn)
+		c13Read(conn)
+	}
+	// HTTP publish endpoint of the broker
+	req := httptest.NewRequest(http.MethodPost, "/mqttproxy/mq1/topics/publish",
+		strings.NewReader(`{"topic":"a/b","qos":1,"payload":"hello","base64":false,"distributed":true}`))
+	b.httpTopicsPublishHandler(httptest.NewRecorder(), req)
+	c13Read(conn)
+	up := packets.NewControlPacket(packets.Unsubscribe).(*packets.UnsubscribePacket)
+	up.MessageID, up.Topics = 3, []string{"a/b"}
+	if c13Write(conn, up) {
+		c13Read(conn)
+	}
+	c13Write(conn, packets.NewControlPacket(packets.Disconnect))
 }
 
 var c13Entry = &zz.ObjectEntry{
 	Kind:       "MQTTProxy",
 	NewDefault: func() interface{} { return (&MQTTProxy{}).DefaultSpec() },
 	Pats:       zz.Patterns(reflect.TypeOf(&Spec{})),
-	Skip: func(interface{}) string {
-		return "MQTTProxy broker binds a TCP port and needs the cluster of a running supervisor"
+	Skip: func(spec interface{}) string {
+		if s, ok := spec.(*Spec); ok && s.UseTLS {
+			return "MQTTProxy with useTLS (needs key material; the plain listener is instantiated)"
+		}
+		return ""
 	},
-	Run: func(*supervisor.Spec, *zz.In, *zz.Obs) {},
+	Run: func(super *supervisor.Spec, in *zz.In, obs *zz.Obs) {
+		spec := *(super.ObjectSpec().(*Spec))
+		spec.Name, spec.EGName = "mq1", "verif"
+		spec.Port = 0 // a free loopback port instead of the configured one
+		var b *Broker
+		if !zz.Stage(obs, "init", "newBroker", func() {
+			b = newBroker(&spec, newStorage(nil), c13Mapper{}, func(string, string) ([]string, error) { return nil, nil })
+		}) {
+			return
+		}
+		if b == nil {
+			obs.Inst = "skipped: the broker did not start (listener)"
+			return
+		}
+		addr := fmt.Sprintf("127.0.0.1:%d", b.listener.Addr().(*net.TCPAddr).Port)
+		zz.Stage(obs, "handle", "session#1", func() { c13Exchange(addr, "c13a", b) })
+		zz.Stage(obs, "handle", "session#2", func() { c13Exchange(addr, "c13b", b) })
+		time.Sleep(30 * time.Millisecond) // broker goroutines finish their work (a panic there kills the process = crash)
+		zz.Stage(obs, "other", "close", func() { b.close() })
+		time.Sleep(10 * time.Millisecond)
+	},
 }
 
 func c13Observe(in *zz.In, inst bool) *zz.Obs { return zz.ObserveObject(c13Entry, in, inst) }
